@@ -18,6 +18,7 @@ from ..rules import call_sites, node_calls, require_before, check_take_and_clear
 from ..mutate import mutate, remove_stmts, replace_stmt, replace_expr, parse_stmt, parse_expr
 from ..model import AnalysisError
 from ..x_scope import own_nodes
+from ..x_flow import resolve_local, concrete_paths
 
 TECHNIQUE = "dominance on the CFG + path-sensitive typestate with abstract evaluation of the wait-status macros + take-and-clear / settle-discipline lint"
 EXPLANATION = (
@@ -34,22 +35,14 @@ F = "tornado/process.py"
 CLS = "Subprocess"
 
 
-def _status_subst(e, status, cls):
-    sg, term, ex = STATUS[cls]
-    table = {"WIFSIGNALED": sg, "WIFEXITED": not sg, "WEXITSTATUS": ex, "WTERMSIG": term,
-             "WIFSTOPPED": False, "WCOREDUMP": False, "WIFCONTINUED": False}
+from ..x_waitstatus import STATUS, Evaluator
 
-    class T(ast.NodeTransformer):
-        def visit_Call(self, node):
-            if isinstance(node.func, ast.Attribute) and node.func.attr in table and len(node.args) == 1 and q.dotted(node.args[0]) == status:
-                return ast.Constant(value=table[node.func.attr])
-            return self.generic_visit(node)
-
-    return T().visit(copy.deepcopy(e))
-
-
-STATUS = {"sig1": (True, 1, 0), "sig9": (True, 9, 0), "sig15": (True, 15, 0), "exit0": (False, 0, 0), "exit1": (False, 0, 1), "exit2": (False, 0, 2), "exit255": (False, 0, 255)}
 EXPECTED = {c: (-t if sg else ex) for c, (sg, t, ex) in STATUS.items()}
+_EV = None
+
+
+def _status_subst(e, status, cls):
+    return _EV.subst(e, status, cls)
 
 
 def _cls_recv(d):
@@ -83,6 +76,13 @@ def rule_register(ck):
                    "the SIGCHLD handler is installed before the immediate poll (a child dying in between would never be noticed)")
     is_reg = lambda n: n.kind == "stmt" and isinstance(n.ast, ast.Assign) and any(p.endswith("[]") and _cls_recv(p[:-2]) == "_waiting" for p in q.assigned_paths(n.ast))
     require_before(ck, "C42.register-before-poll", fi, is_poll, is_reg, "the subprocess is in the waiting table before the immediate poll (the poll pops it from there)")
+    # ... and each of the four steps happens on EVERY normal path of set_exit_callback (none is skipped by a fast path)
+    ef = event_facts(fi, {"store": lambda n: n.kind == "stmt" and n.ast is stores[0], "init": node_calls(CLS + ".initialize", "self.initialize", "cls.initialize"), "reg": is_reg, "poll": is_poll},
+                     cond_facts=False)
+    at_exit = ef.get(fi.cfg.exit.id, frozenset())
+    for k, what in (("store", "the callback is stored"), ("init", "the SIGCHLD handler is (idempotently) installed"), ("reg", "the subprocess is registered"),
+                    ("poll", "the child is polled immediately (a child that already exited gets no further SIGCHLD)")):
+        ck.ob("C42.register-before-poll", fi, fi.node, ("@" + k, True) in at_exit, "on every normal path of set_exit_callback %s" % what, construct="always-" + k)
     for n in fi.cfg.stmt_nodes(is_reg):
         t = n.ast.targets[0]
         ck.ob("C42.register-before-poll", fi, n.ast, isinstance(t, ast.Subscript) and q.dotted(t.slice) == "self.pid" and q.dotted(n.ast.value) == "self", "registered as _waiting[self.pid] = self")
@@ -109,7 +109,7 @@ def rule_sigchld(ck):
     if len(fors) != 1 or not isinstance(fors[0].target, ast.Name):
         raise AnalysisError("_cleanup: expected one loop over the waiting pids")
     lp = fors[0]
-    it = lp.iter
+    it = resolve_local(cl, lp.iter)
     copied = isinstance(it, ast.Call) and isinstance(it.func, ast.Name) and it.func.id in ("list", "tuple", "sorted") and len(it.args) == 1
     src = it.args[0] if copied else it
     if isinstance(src, ast.Call) and isinstance(src.func, ast.Attribute) and src.func.attr == "keys" and not src.args:
@@ -202,6 +202,8 @@ def rule_try_cleanup(ck):
 
 
 def rule_decode(ck, cb_attr):
+    global _EV
+    _EV = Evaluator(ck.repo, F, CLS)
     fi = ck.func(F, CLS + "._set_returncode")
     params = [p for p in fi.params() if p != "self"]
     if len(params) != 1:
@@ -313,28 +315,27 @@ def rule_wait_for_exit(ck):
             ck.ob("C42.wait-for-exit", cb, c, ok, "the error outcome is CalledProcessError carrying the return code")
         else:
             ck.ob("C42.wait-for-exit", cb, c, payload is not None and q.dotted(payload) == ret, "the result outcome is the return code itself")
-    zero = "%s == 0" % ret
+    # branch table by finite-domain evaluation of the callback: (return code, raise_error) -> the one settlement made
+    def event(n):
+        if n.id in exc_ids:
+            return "error"
+        if n.id in res_ids:
+            return "result"
+        return None
 
-    def tr(n, v):
-        r, e = v
-        return (min(r + (1 if n.id in res_ids else 0), 2), min(e + (1 if n.id in exc_ids else 0), 2))
-
-    seen = explore(cb.cfg, (0, 0), tr, lambda t: t in (zero, flag, ret), follow_exc=False)
-    # facts are killed when ret is passed to the settle helper; read them at the settle nodes instead
-    for nid, c in list(res_ids.items()) + list(exc_ids.items()):
-        for facts_, (r, e) in sorted(seen.get(nid, ()), key=repr):
-            nonzero = (zero, False) in facts_ or (ret, True) in facts_
-            iszero = (zero, True) in facts_ or (ret, False) in facts_
-            want_err = (flag, True) in facts_
-            no_err = (flag, False) in facts_
-            if nid in exc_ids:
-                ck.ob("C42.wait-for-exit", cb, c, nonzero and want_err and r == 0 and e == 0, "CalledProcessError only for a non-zero status with raise_error set, and as the only settlement on the path",
-                      construct="raise when nonzero=%s raise_error=%s" % (nonzero, want_err))
-            else:
-                ck.ob("C42.wait-for-exit", cb, c, (iszero or no_err) and r == 0 and e == 0, "the status is delivered as the result when it is zero or raise_error is off, and as the only settlement on the path",
-                      construct="result when zero=%s raise_error_off=%s" % (iszero, no_err))
-    for facts_, (r, e) in sorted(seen.get(cb.cfg.exit.id, ()), key=repr):
-        ck.ob("C42.wait-for-exit", cb, cb.node, r + e == 1, "every path of the callback settles the future exactly once (results=%d, errors=%d)" % (r, e), construct="settlements result=%d error=%d" % (r, e))
+    rows = 0
+    for rc in (0, 1, 2, 255, -9, -15):
+        for flagv in (True, False):
+            paths = concrete_paths(cb, {ret: rc, flag: flagv}, event)
+            traces = sorted({t for kind, t in paths if kind == "return"})
+            if len(traces) != 1:
+                raise AnalysisError("wait_for_exit callback: outcome for (%s=%r, %s=%r) is not determined by folding its conditions (%d different paths)" % (ret, rc, flag, flagv, len(traces)))
+            want = ("error",) if (rc != 0 and flagv) else ("result",)
+            rows += 1
+            ck.ob("C42.wait-for-exit", cb, cb.node, traces[0] == want,
+                  "return code %r with raise_error=%r settles the future exactly once with %s (found: %s)" % (rc, flagv, "CalledProcessError" if want == ("error",) else "the code as result", list(traces[0]) or "nothing"),
+                  construct="code=%r raise_error=%r -> %s" % (rc, flagv, ",".join(traces[0]) or "none"))
+    ck.floor("C42.wait-for-exit", rows, 12, "rows of the outcome table")
 
 
 def run(ck):
@@ -391,6 +392,16 @@ def _poll_before_register(root):
     return True
 
 
+def _poll_only_first(root):
+    b = root.body
+    keep = [st for st in b if not (isinstance(st, ast.Expr) and isinstance(st.value, ast.Call) and ("initialize" in _src(st) or "_try_cleanup_process" in _src(st)))]
+    if len(keep) == len(b):
+        return False
+    keep.append(parse_stmt("if not Subprocess._initialized:\n    Subprocess.initialize()\n    Subprocess._try_cleanup_process(self.pid)"))
+    root.body = keep
+    return True
+
+
 def _init_last(root):
     b = root.body
     i = [k for k, st in enumerate(b) if isinstance(st, ast.Expr) and isinstance(st.value, ast.Call) and "initialize" in _src(st)]
@@ -404,6 +415,7 @@ def _init_last(root):
 MUTANTS = [
     ("poll before the subprocess is registered", _m("set_exit_callback", _poll_before_register), "C42.register-before-poll"),
     ("SIGCHLD handler installed after the immediate poll", _m("set_exit_callback", _init_last), "C42.register-before-poll"),
+    ("seeded C42-adv2: immediate poll only when the handler was not yet installed", _m("set_exit_callback", lambda root: _poll_only_first(root)), "C42.register-before-poll"),
     ("no immediate poll on registration", _m("set_exit_callback", remove_stmts(lambda st: "_try_cleanup_process" in _src(st))), "C42.register-before-poll"),
     ("exit callback invoked without clearing it", _m("_set_returncode", remove_stmts(lambda st: _src(st) == "self._exit_callback = None")), "C42.callback-once"),
     ("seeded C42-adv1: _cleanup stops after the first reaped child", _m("_cleanup", replace_stmt(lambda st: isinstance(st, ast.Expr) and "_try_cleanup_process" in _src(st), lambda st: [parse_stmt("if cls._try_cleanup_process(pid):\n    break")])), "C42.cleanup-all"),
